@@ -217,7 +217,10 @@ class Sequence(BaseGrammar):
                 # On any of the other modes (GREEDY or GREEDY_ONCE_STARTED)
                 # we've effectively already claimed the segments, we've
                 # just failed to match. In which case it's unparsable.
-                insert_segments += tuple((matched_idx, meta) for meta in meta_buffer)
+                # NOTE: Any buffered metas are discarded here rather than
+                # flushed. A buffered Indent whose matching Dedent belongs to
+                # a later (never reached) element would otherwise leave the
+                # indent balance of the file non-zero.
                 return MatchResult(
                     matched_slice=slice(start_idx, matched_idx),
                     insert_segments=insert_segments,
